@@ -176,6 +176,36 @@ def _header(ctx, run, f):
             run.violation("RF-DOM", key, "`return FALSE` on an uncorrectable subcode/control byte without marking the open page DISCARD: "
                           "later rows would be collected into a page whose header was not understood", ex.loc(f, i))
     if not found:
+        # the decode moved into a helper that N3 inlined: its `return FALSE` is a store of 0 into the result temporary;
+        # the page must be marked DISCARD on every path from there to the function's exit
+        for bid, i in flow.all_events(f):
+            e = f.exprs[i]
+            if not (e["k"] == "asg" and e.get("inl_ret") and ex.const(f, e["c"][1]) == 0):
+                continue
+            if not any(_is_or_lt0_edge(f, i)):
+                # a single `< 0` test of a decode result leading here counts as well
+                ok1 = False
+                b0 = flow.elem_pos(f)[i][0]
+                for p_ in f.blocks[b0].preds:
+                    for s_, lab in f.edges(p_):
+                        if s_ == b0:
+                            for a in atoms.edge_atoms(f, p_, lab):
+                                if a.rel == "<" and a.R is not None and a.R.const == 0 and (a.L.calls & set(neg.SOURCES) or
+                                                                                             any(_assigned_from_decoder(f, n_) for n_ in a.L.locals)):
+                                    ok1 = True
+                if not ok1:
+                    continue
+            found = True
+            okp, _ = atoms.must_pass(f, i, atoms.store_to_field("cache_page.function"))
+            key = "RF-DOM:vbi_decode_teletext:header-discard"
+            if okp:
+                run.holds("RF-DOM", key, "after the (inlined) header decode failed the page is marked DISCARD before the function returns",
+                          ex.loc(f, i))
+            else:
+                run.violation("RF-DOM", key, "the header's subcode / control decode fails (`%s`, inlined from %s) and a path returns "
+                              "without marking the open page DISCARD: later rows are collected into a page whose header was not "
+                              "understood" % (ex.pretty(f, i)[:50], e.get("inl")), ex.loc(f, i), witness={"function": f.name})
+    if not found:
         raise AnalysisBroken("vbi_decode_teletext: the (subcode | control) < 0 exit was not found")
 
 
